@@ -38,7 +38,9 @@ PriorMuts == {}
 PriorDerivs == {}
 (* ---- sampler (TheJoker over one prior and one generator): marginal likelihoods of data set A / B through the in-memory and  *)
 (*      the cache-file path are reads; rejection / iterative sampling draw from the generator                                   *)
-SamplerReads == {"mA", "mAf", "mB", "mBm"}
+\*      "bad": a call the sampler must refuse (two surveys for a prior without offsets) - refused whatever was accepted before, and
+\*      leaving the sampler as it was
+SamplerReads == {"mA", "mAf", "mB", "mBm", "bad"}
 SamplerDraws == {"rA", "rAm", "rB", "iA"}
 
 ReadsOf(kind) == CASE kind = "samples" -> SamplesReads [] kind = "data" -> DataReads [] kind = "prior" -> PriorReads [] kind = "sampler" -> SamplerReads
@@ -55,6 +57,7 @@ Owner(kind, r) ==
     [] kind = "data" -> "C15"
     [] kind = "prior" /\ r \in {"shape", "touch"} -> "C18"
     [] kind = "prior" -> "C09"
+    [] kind = "sampler" /\ r = "bad" -> "C18"
     [] kind = "sampler" /\ r \in SamplerReads -> "C05"
     [] kind = "sampler" -> "C10"
 
